@@ -26,6 +26,13 @@ def conditions(tier, seed):
     out.append(Cond('join_two_identifiers', 'c03_join.py', dict(schema='uid'), func='check_two_ids', timeout=t,
                     bound='two associations from different classes into the same class through two different identifiers, referential attributes named alike; every key assignment, both statement orders',
                     case_split=['ci'], realised=['model text']))
+    for sp in ('refl', 'phr', 'case'):
+        out.append(Cond('special_' + sp, 'c03_join.py', dict(schema='uid', special=sp), func='check_special', timeout=t,
+                        bound={'refl': 'reflexive association with phrases: 3 rows, every assignment of previous-row references incl. self-reference and dangling',
+                               'phr': 'association with different phrases on its two ends: 3 referred rows, every assignment of references of 3 referring rows',
+                               'case': 'association whose key attributes are spelled in another letter case than the classes declare'}[sp]
+                              + '; loader vs key join, and rows created through new() vs loader',
+                        case_split=['ci'], realised=['model text']))
     for model in ('explicit', 'linked', 'inferred'):
         n = {'explicit': 8, 'linked': 8, 'inferred': 5}[model]
         # all permutations (8! = 40320 for the explicit models: sharded; quick takes a seed-rotated slice)
